@@ -81,6 +81,17 @@ func (propC18) Gen(seed uint64, tier string, idx int) *Plan {
 				resp.Framing = "chunked"
 			}
 		}
+		if prof != "standard" && r.Chance(350) {
+			// the same promise on the translated route: an Anthropic client streaming from an OpenAI-only
+			// backend sees every delta before the backend is allowed to send the next one (progress is
+			// judged by the delta's text appearing at the client, byte counts differ across dialects)
+			scen = "live-translated"
+			p.Stack.Passthrough = false
+			op.Path = "/olla/anthropic/v1/messages"
+			op.Body = BodySpec{Kind: "anthropic", N: 30, Model: "m1", Stream: true}
+			resp = Resp{Kind: "llm", Status: 200, Gate: true, GateMark: true, Framing: "chunked", Tag: "s1"}
+			streaming = true
+		}
 	case "whole":
 	case "stall":
 		at := pickS(r, []string{"after-headers", "body", "body"})
@@ -178,6 +189,13 @@ func (propC18) Check(r *Run) []Violation {
 	}
 	e := exs[len(exs)-1]
 	switch scen {
+	case "live-translated":
+		if e.GateTimeout {
+			add("C18/chunk-not-delivered-live", "translated stream: backend wrote %d B and waited %s for the client to see the last delta before sending more; the client had %d B: %.300q", len(e.BodyWrote), r.Sim.gateLimit, c.BodyLen, c.Body)
+		}
+		if e.Completed && (c.BodyErr != "" || !bytes.Contains(c.Body, []byte("message_stop"))) {
+			add("C18/completed-stream-not-delivered-whole", "translated stream: backend completed, client got %d B err=%q status %d without message_stop", c.BodyLen, c.BodyErr, c.Status)
+		}
 	case "live":
 		if e.GateTimeout {
 			add("C18/chunk-not-delivered-live", "backend wrote %d B and waited %s for the client to see them before sending more; the client had %d B", len(e.BodyWrote), r.Sim.gateLimit, c.BodyLen)
